@@ -92,6 +92,68 @@ func (vt *v2T) scenC02() {
 		vt.match(c, x, v2MatchOpts{scored: true})
 		vt.reset(false)
 	}
+	// repetitive documents: a long run of one word, a phrase repeated, a two-word vocabulary.  Their q-grams line up with
+	// the input in many ways, so one document yields several candidate ranges, most of them far too short or overcounted;
+	// every reported one must still be backed by its own scored edit script
+	{
+		rc := vt.build("c02rep", 0.8, nil)
+		uniq := func(tag string, n int) []string {
+			ws := make([]string, n)
+			for i := range ws {
+				ws[i] = fmt.Sprintf("rep%s%c%c", tag, 'a'+i%26, 'a'+i/26)
+			}
+			return ws
+		}
+		rep := func(w []string, n int) []string {
+			var out []string
+			for i := 0; i < n; i++ {
+				out = append(out, w...)
+			}
+			return out
+		}
+		lines := func(ws []string) string {
+			var sb strings.Builder
+			for i, w := range ws {
+				sb.WriteString(w)
+				if i%9 == 8 || i == len(ws)-1 {
+					sb.WriteByte('\n')
+				} else {
+					sb.WriteByte(' ')
+				}
+			}
+			return sb.String()
+		}
+		runDoc := append(uniq("r", 60), rep([]string{"filler"}, 40)...)
+		phrase := []string{"to", "the", "extent", "permitted", "by", "law"}
+		phraseDoc := append(rep(phrase, 8), uniq("p", 10)...)
+		var lowDoc []string
+		for i := 0; i < 40; i++ {
+			lowDoc = append(lowDoc, []string{"to", "be"}[vt.rng.Intn(2)])
+		}
+		for name, ws := range map[string][]string{"Run": runDoc, "Phrase": phraseDoc, "Low": lowDoc} {
+			vt.add(rc, v2Doc{Key: "License/" + name + "/license.txt", Cat: "License", Name: name, Variant: "license.txt", Data: []byte(lines(ws))})
+		}
+		junk := []string{"zzqxvaa", "qqzzkbb", "xqzvvcc"}
+		var ins [][]string
+		for _, d := range [][]string{runDoc, phraseDoc, lowDoc} {
+			ins = append(ins, d,
+				append(append(append([]string(nil), d...), junk...), rep([]string{"filler"}, 45)...),
+				append(append(append([]string(nil), d...), junk...), rep(phrase, 7)...),
+				append(append(rep([]string{"filler"}, 45), junk...), d...),
+				append(append(append([]string(nil), d[:len(d)*9/10]...), junk...), d[len(d)/2:]...))
+		}
+		for k := 0; k < 12; k++ {
+			var w []string
+			for i, n := 0, 30+vt.rng.Intn(60); i < n; i++ {
+				w = append(w, []string{"to", "be", "filler", "law"}[vt.rng.Intn(2+k%3)])
+			}
+			ins = append(ins, w)
+		}
+		for _, w := range ins {
+			vt.match(rc, []byte(lines(w)), v2MatchOpts{scored: true})
+		}
+		vt.reset(false)
+	}
 	// a corpus whose dictionary is larger than 0xD800 words: token ids travel through go-diff as runes, and ids in the
 	// surrogate range do not survive string([]rune)
 	{
@@ -197,6 +259,26 @@ func (vt *v2T) scenC04() {
 			inputs = append(inputs, d.Data)
 		}
 	}
+	// the other spelling of every interchangeable word, a capitalised URL scheme: words that Normalize (which keeps
+	// original spellings and registers them in the shared dictionary) and Match read differently
+	for k := 0; k < 6; k++ {
+		d := base[sub.rng.Intn(len(base))]
+		f := strings.Fields(string(d.Data))
+		changed := false
+		for i, w := range f {
+			for from, to := range interchangeableWords {
+				if w == to && !strings.Contains(from, " ") && from != "https" {
+					f[i], changed = from, true
+				}
+			}
+			if strings.HasPrefix(w, "http://") {
+				f[i], changed = "Https://"+w[len("http://"):], true
+			}
+		}
+		if changed {
+			inputs = append(inputs, []byte(strings.Join(f, " ")+"\n"))
+		}
+	}
 	scen := v2Scenarios()
 	names := make([]string, 0, len(scen))
 	for k := range scen {
@@ -249,6 +331,11 @@ func (vt *v2T) scenC04() {
 					vt.emit(map[string]interface{}{"ev": "norm", "c": c.id, "unchanged": bytes.Equal(cp, other), "docs": []int{d0, len(c.c.docs)}, "dict": []int{w0, len(c.c.dict.words)}})
 				case 1:
 					vt.match(c, inputs[vt.rng.Intn(len(inputs))], v2MatchOpts{api: "MatchFrom"})
+				case 2: // the very input is normalized first
+					cp := append([]byte(nil), in...)
+					d0, w0 := len(c.c.docs), len(c.c.dict.words)
+					c.c.Normalize(cp)
+					vt.emit(map[string]interface{}{"ev": "norm", "c": c.id, "unchanged": bytes.Equal(cp, in), "docs": []int{d0, len(c.c.docs)}, "dict": []int{w0, len(c.c.dict.words)}})
 				}
 				api := "Match"
 				if (ci+ii+round)%3 == 0 {
